@@ -213,7 +213,14 @@ impl Account {
 						&endpoint.name
 					);
 					self.info(&msg);
+					let contacts_changed = hash_contacts(&self.contacts) != acc_ep.contacts_hash;
+					let key_changed = hash_key(&self.current_key)? != acc_ep.key_hash;
 					register_account(endpoint, self).await?;
+					// A CA that already knows this key returns the existing account unchanged:
+					// a pending contact edit still has to be sent.
+					if contacts_changed && !key_changed {
+						update_account_contacts(endpoint, self).await?;
+					}
 					return Ok(());
 				}
 			}
